@@ -336,10 +336,11 @@ type Log struct {
 }
 
 var (
-	mu     sync.Mutex
-	events []Event
-	fatal  string
-	qfSeq  = map[string]int{}
+	mu      sync.Mutex
+	events  []Event
+	fatal   string
+	qfSeq   = map[string]int{}
+	cancels []context.CancelFunc
 )
 
 func add(e Event) {
@@ -436,8 +437,15 @@ func ResLevel(m proto.Message, level int, err error) Result {
 // Call runs one stub invocation with a deadline and records its result.
 func Call(method, kind string, fn func(ctx context.Context) Result) {
 	add(Event{Kind: "start", Method: method})
-	ctx, cancel := context.WithTimeout(context.Background(), 8*time.Second)
-	defer cancel()
+	// The context is deliberately not cancelled when the call returns (only at
+	// the end of the driver): in gorums a context that ends right after its
+	// call completed can still cancel the node's stream (sendMsg's watcher
+	// may observe ctx.Done before close(done)) and fail the next call with
+	// "stream is down" - a runtime matter (C09), not a binding matter.
+	ctx, cancel := context.WithTimeout(context.Background(), 60*time.Second)
+	mu.Lock()
+	cancels = append(cancels, cancel)
+	mu.Unlock()
 	ch := make(chan Result, 1)
 	go func() {
 		defer func() {
@@ -494,6 +502,9 @@ func Finish() {
 	defer mu.Unlock()
 	b, _ := json.Marshal(Log{Events: events, Fatal: fatal})
 	os.Stdout.Write(append(b, '\n'))
+	for _, c := range cancels {
+		c()
+	}
 }
 
 // StartServers starts N gorums servers on loopback TCP listeners.
@@ -662,7 +673,7 @@ func CheckDriverLog(plan DriverPlan, lg DrvLog) []Binding {
 			continue
 		}
 		if res.TimedOut {
-			bad(mp, "", "timeout", "the call did not complete within its 8 s deadline", "handlers run on %d servers, %d quorum function invocations", len(handlers), len(qfs))
+			bad(mp, "", "timeout", "the call did not complete within 12 s", "handlers run on %d servers, %d quorum function invocations", len(handlers), len(qfs))
 			continue
 		}
 		// handlers
